@@ -44,7 +44,7 @@ def register(reg, S):
              f"g_pi[j] in {tracks} and g_pd[j] in {tracks}[g_pi[j]] "
              f"and same({tracks}[g_pi[j]][g_pd[j]], fn_result('{ITS}', g_pi[j], g_pd[j], {body('j')}, {be_}))))"),
             ("no-other-track",
-             f"forall_keys({tracks}, lambda i: forall_keys({tracks}[i], lambda d: {selected('(i, d)')} and exists(0, {upto}, lambda j: g_tag[j] == tagname(i, d))))"),
+             f"forall_keys({tracks}, lambda i: forall_keys({tracks}[i], lambda d: {selected('(i, d)')} and exists(0, {upto}, lambda j: g_has[j] and g_pi[j] == i and g_pd[j] == d)))"),
         ]
     common = dict(
         params=dict(cls=_cls(C + "Chart"), fp=Conc(lambda: _FP, "text-file"), want_tracks=WT),
@@ -83,6 +83,8 @@ def register(reg, S):
         loops={0: LoopSpec(invariants=routed("instrument_tracks", "_it", "sync_track.bpm_events"))},
         ghosts=[Ghost("instrument_difficulty_pair = instrument_track_name_to_instrument_difficulty_pair[header_tag]",
                       "hint('current-section-pair', header_tag == g_tag[_it] and g_has[_it] and instrument_difficulty_pair[0] == g_pi[_it] and instrument_difficulty_pair[1] == g_pd[_it])\n"
+                      "hint('current-section-body', lo_of(data_section_lines) == g_start[_it] + 2 and hi_of(data_section_lines) == g_start[_it + 1] - 1 "
+                      "and 0 <= g_start[_it] + 2 and g_start[_it] + 2 <= g_start[_it + 1] - 1 and g_start[_it + 1] - 1 <= len(g_lines))\n"
                       "rebind('instrument_difficulty_pair', (g_pi[_it], g_pd[_it]))"),
                 # frame of the store: no earlier section names the pair being stored
                 Ghost("instrument_tracks.setdefault(instrument, dict())[difficulty] = track",
